@@ -248,3 +248,65 @@ func C03_Damage() {
 }
 
 func C03_Loc_F4() { c03Intrinsic(freeRunes(4, true)) }
+
+// NegativeSources exposes the hand-written ill-formed programs.
+func NegativeSources() []string { return c03Negative }
+
+// c03Ref compares the parser with the independent recogniser refparse on the
+// first command line of src. mode 3: whatever the recogniser does not classify
+// as a complete command must be rejected (C03). mode 2: a complete command must
+// be accepted and consumed exactly (the converse, C02 / C07).
+func c03Ref(src []rune, mode int) {
+	if contInHeredoc(src) {
+		nd.Assume(false) // continuations inside words / here-documents: outside the recogniser
+	}
+	s := NewScanner(src)
+	_, _, err := parser.ParseCommands(nil, "src", s)
+	nd.Drain()
+	v, end := RefParse(src)
+	nd.Observe(string(src))
+	if v == RefComplete {
+		nd.Cover("ref-complete")
+		if mode == 2 {
+			nd.Assert(err == nil, "a command the reference recogniser accepts is accepted")
+			if err == nil {
+				nd.Assert(s.I == end, "the call consumes exactly the command the recogniser delimits")
+			}
+		}
+		return
+	}
+	nd.Cover("ref-rejects")
+	if mode == 3 {
+		nd.Assert(err != nil, "input the reference recogniser classifies as ill-formed or incomplete is rejected")
+	}
+}
+
+func C03_Ref_F2() { c03Ref(freeRunes(2, false), 3) }
+func C03_Ref_F3() { c03Ref(freeRunes(3, false), 3) }
+func C03_Ref_F4() { c03Ref(freeRunes(4, true), 3) }
+func C03_Ref_T1() { c03Ref(holeTemplate(), 3) }
+func C02_Ref_F2() { c03Ref(freeRunes(2, false), 2) }
+func C02_Ref_F3() { c03Ref(freeRunes(3, false), 2) }
+func C02_Ref_F4() { c03Ref(freeRunes(4, true), 2) }
+func C02_Ref_T1() { c03Ref(holeTemplate(), 2) }
+
+// C03_Ref_Gen: the recogniser against the derivation generator (two
+// independent oracles) and against the parser: a generated single-line
+// derivation is Complete for the recogniser and accepted by the parser.
+func C03_Ref_Gen() {
+	g := &gen{budget: 2}
+	g.leaf = string(nd.RuneIn("a9_-/é"))
+	g.name = string(nd.RuneIn("aZ_"))
+	text, _ := g.seq(2, false)
+	src := []rune(text)
+	nd.Observe(text)
+	v, end := RefParse(src)
+	s := NewScanner(src)
+	_, _, err := parser.ParseCommands(nil, "src", s)
+	nd.Drain()
+	if g.arithIn {
+		return // KF-C02-arith-in-parentheses
+	}
+	nd.Assert(v == RefComplete && end == len(src), "the recogniser accepts every generated derivation")
+	nd.Assert(err == nil && s.I == len(src), "the parser accepts every generated derivation")
+}
